@@ -220,8 +220,8 @@ def run(ck: Check) -> None:
             s = proto.dec(ev)
             ck.oracle_checks += 1
             try:
-                canonical = bytes.fromhex(s).hex() == s
-            except ValueError:
+                canonical = isinstance(s, str) and bytes.fromhex(s).hex() == s      # an accepted value of another kind is a second spelling too
+            except (ValueError, TypeError):
                 canonical = False
             if not canonical:
                 ck.violation("an accepted key string is not the canonical spelling of its bytes", {"value": ev[:300]}, "spelling")
